@@ -84,6 +84,15 @@ def param_mutations(funcs):
     return result
 
 
+_ESCAPES = {}
+
+
+def params_kept_by_identity(func):
+    """{parameter: [(line, 'self.attr')]}: the object the caller passed is stored in the instance as it is (no copy)"""
+    _scan("<f>", func, {}, {}, {})
+    return dict(_ESCAPES.get(id(func), {}))
+
+
 def _union(a, b):
     return {k: set(a.get(k, ())) | set(b.get(k, ())) for k in set(a) | set(b)}
 
@@ -91,6 +100,8 @@ def _union(a, b):
 def _scan(q, f, funcs, by_name, result):
     ps = _params(f)
     found = {}
+    escapes = _ESCAPES.setdefault(id(f), {})
+    escapes.clear()
 
     def hit(names, line, what):
         for p in names:
@@ -137,6 +148,9 @@ def _scan(q, f, funcs, by_name, result):
                         b = _base(t)
                         if isinstance(b, ast.Name) and not (isinstance(t, ast.Attribute) and b.id in ("self", "cls")):
                             hit(al.get(b.id, ()), st.lineno, "store into " + ast.unparse(t)[:30])
+                        if isinstance(t, ast.Attribute) and isinstance(b, ast.Name) and b.id == "self" and t.value is b:
+                            for p_ in new - {"self"}:
+                                escapes.setdefault(p_, []).append((st.lineno, "self." + t.attr))
                     elif isinstance(t, (ast.Tuple, ast.List)):
                         for x in ast.walk(t):
                             if isinstance(x, ast.Name) and isinstance(x.ctx, ast.Store):
